@@ -2,7 +2,7 @@
 (* Role C: validates events recorded from the implementation (stateless      *)
 (* decoders).  One TLC state per event; verdicts are total: a rejected event *)
 (* is printed (REJECT, id, failing clause) and the run continues.            *)
-EXTENDS TV_Core, TV_Alt, TLC, Json, IOUtils
+EXTENDS TV_Core, TV_Alt, TV_ADSB, TLC, Json, IOUtils
 
 Events == ndJsonDeserialize(IOEnv.TRACE_FILE)
 
@@ -31,6 +31,43 @@ Verdict(e) ==
     [] e.fn = "common.um" -> V_common_um(e)
     [] e.fn = "allcall.capability" -> V_capability(e)
     [] e.fn = "allcall.interrogator" -> V_interrogator(e)
+    [] e.fn = "adsb.callsign" -> V_callsign(e)
+    [] e.fn = "adsb.category" -> V_category(e)
+    [] e.fn = "adsb.velocity" -> V_velocity(e)
+    [] e.fn = "adsb.airborne_velocity" -> V_airborne_velocity(e)
+    [] e.fn = "adsb.surface_velocity" -> V_surface_velocity(e)
+    [] e.fn = "adsb.speed_heading" -> V_speed_heading(e)
+    [] e.fn = "adsb.altitude_diff" -> V_altitude_diff(e)
+    [] e.fn = "adsb.emergency_state" -> V_emergency_state(e)
+    [] e.fn = "adsb.is_emergency" -> V_is_emergency(e)
+    [] e.fn = "adsb.selected_altitude" -> V_selected_altitude(e)
+    [] e.fn = "adsb.target_altitude" -> V_target_altitude(e)
+    [] e.fn = "adsb.vertical_mode" -> V_vertical_mode(e)
+    [] e.fn = "adsb.horizontal_mode" -> V_horizontal_mode(e)
+    [] e.fn = "adsb.selected_heading" -> V_selected_heading(e)
+    [] e.fn = "adsb.target_angle" -> V_target_angle(e)
+    [] e.fn = "adsb.baro_pressure_setting" -> V_baro_pressure_setting(e)
+    [] e.fn = "adsb.autopilot" -> V_autopilot(e)
+    [] e.fn = "adsb.vnav_mode" -> V_vnav_mode(e)
+    [] e.fn = "adsb.altitude_hold_mode" -> V_altitude_hold_mode(e)
+    [] e.fn = "adsb.approach_mode" -> V_approach_mode(e)
+    [] e.fn = "adsb.lnav_mode" -> V_lnav_mode(e)
+    [] e.fn = "adsb.tcas_operational" -> V_tcas_operational(e)
+    [] e.fn = "adsb.tcas_ra" -> V_tcas_ra(e)
+    [] e.fn = "adsb.emergency_status" -> V_emergency_status(e)
+    [] e.fn = "adsb.version" -> V_version(e)
+    [] e.fn = "adsb.nic_s" -> V_nic_s(e)
+    [] e.fn = "adsb.nic_a_c" -> V_nic_a_c(e)
+    [] e.fn = "adsb.nic_b" -> V_nic_b(e)
+    [] e.fn = "adsb.nac_p" -> V_nac_p(e)
+    [] e.fn = "adsb.nac_v" -> V_nac_v(e)
+    [] e.fn = "adsb.nuc_v" -> V_nuc_v(e)
+    [] e.fn = "adsb.sil" -> V_sil(e)
+    [] e.fn = "adsb.nuc_p" -> V_nuc_p(e)
+    [] e.fn = "adsb.nic_v1" -> V_nic_v1(e)
+    [] e.fn = "adsb.nic_v2" -> V_nic_v2(e)
+    [] e.fn = "commb.cs20" -> V_cs20(e)
+    [] e.fn = "monotone" -> V_monotone(e)
     [] OTHER -> "unknown_fn"
 
 Init == l = 1 /\ nbad = 0 /\ canon = <<>> /\ TLCSet(1, 0)
